@@ -8,8 +8,8 @@ META = {
   "bounds": {"quick": "autocorrelation vector r[0..p] fully symbolic for p<=3 (plus order<len(r)-1 and order>=len(r) zero "
                       "extension); data-driven: block length <=4 with symbolic samples, p<=2; acorr/lag_matrix/toeplitz: "
                       "length <=5; per-query cap 30 s",
-             "thorough": "p=4 attempted with a 120 s cap (inconclusive sub-obligations reported, not claimed); p<=6 with all but two "
-                         "coordinates of r fixed to seeded rationals; data-driven length <=5, p<=3"},
+             "thorough": "p<=3 fully symbolic as in quick; p=4 with all but one coordinate of r fixed to seeded rationals (claimed), p=5,6 "
+                         "likewise (optional attempts); data-driven length <=5, p<=3"},
   "outside": "numpy strategies (lpc.nautocor / lpc.covar: numpy absent), orders above the bound, IEEE rounding",
   "stubs": [],
   "assumptions": ["paths on which the recursion divides by zero (ParCorError / ZeroDivisionError) or kcovar rejects an unstable "
@@ -162,20 +162,21 @@ def tasks(tier, seed):
   for n, order in ((3, 1), (4, 2), (2, 2), (2, 3), (3, 3), (1, 2), (1, 3), (4, 3)):
     T.append(("h_levinson", {"n": n, "order": order}))
   if big:
-    T.append(("h_levinson", {"n": 5}, {"optional": True, "max_paths": 400}))
+    # p >= 4: fully symbolic r is out of reach (probe: `unknown` at 20 s/query already for p = 4; degree blow-up), so
+    # all but ONE coordinate of r are fixed to seeded rationals (declared partial concretisation)
     rng = random.Random(77 + seed)
     for n in (5, 6, 7):
       for rep in range(3):
-        free = rng.sample(range(n), 2)
+        free = rng.sample(range(n), 1)
         fixed = {}
         r0 = rng.randint(4, 9)
         for i in range(n):
           if i not in free: fixed[str(i)] = str(Fraction(r0 if i == 0 else rng.randint(-3, 3), 1 if i == 0 else rng.randint(1, 3)))
-        T.append(("h_levinson", {"n": n, "fixed": fixed}))
+        T.append(("h_levinson", {"n": n, "fixed": fixed}, {"optional": n >= 6, "task_s": 900 if n == 5 else 400, "path_s": 300}))
   for N in ((0, 1, 3, 4) if not big else (0, 1, 3, 5)):
     T.append(("h_tables", {"N": N}))
   for N, p in ((2, 1), (3, 1), (3, 2), (4, 2), (4, 1)) + (((5, 2), (4, 3), (5, 3)) if big else ()):
-    T.append(("h_kautocor", {"N": N, "p": p}))
+    T.append(("h_kautocor", {"N": N, "p": p}, {"task_s": 1200, "path_s": 400} if p >= 3 or N >= 5 else {}))
   for N, p in ((2, 1), (3, 1), (4, 1), (3, 2), (4, 2)) + (((5, 2), (5, 3)) if big else ()):
-    T.append(("h_kcovar", {"N": N, "p": p}, {"optional": N >= 5}))
+    T.append(("h_kcovar", {"N": N, "p": p}, {"optional": N >= 5, "task_s": 600} if N >= 5 else {}))
   return T
